@@ -733,6 +733,8 @@ class VCtx(_mpc.BaseContext):
     """Virtual multiprocessing context; passes torch's isinstance(BaseContext) check."""
 
     _name = "virtual"
+    fail_start_at = None  # class-level defaults: subclasses with their own __init__ need not know about them
+    n_started = 0
 
     def __init__(self, fail_start_at=None):
         super().__init__()
